@@ -185,7 +185,7 @@ class SimProtoExporter:
         def name_of(x) -> str:
             # The name of a single-ended output: given as such, or that of a (named) Signal of the testbench
             if isinstance(x, str):
-                return x
+                return target_name(x)
             if not isinstance(x, Signal):
                 raise ValueError(f"Invalid Noise Output: {x}")
             return signal_name(x, self.sim.tb)
@@ -212,7 +212,7 @@ class SimProtoExporter:
 
         elif isinstance(output, str):
             # Single-ended Signal output
-            output_p, output_n = output, ""
+            output_p, output_n = target_name(output), ""
 
         else:
             raise TypeError(f"Invalid Noise Output: {output}")
@@ -222,8 +222,11 @@ class SimProtoExporter:
             input_source = noise.input_source.name
             if not isinstance(input_source, str) or not input_source:
                 raise ValueError(f"Invalid Noise Input Source: unnamed {noise.input_source}")
+            if self.sim.tb.namespace.get(input_source, None) is not noise.input_source:
+                msg = f"Invalid Noise Input Source: {noise.input_source} is not an Instance of testbench {self.sim.tb.name}"
+                raise ValueError(msg)
         elif isinstance(noise.input_source, str):
-            input_source = noise.input_source
+            input_source = target_name(noise.input_source)
         else:
             raise TypeError(f"Invalid Noise Input Source: {noise.input_source}")
 
@@ -345,11 +348,18 @@ def signal_name(sig: Signal, tb: Optional["Module"] = None) -> str:
     Signals are referred to by name, in the scope of testbench `tb`: unnamed ones, and those of other Modules, cannot be."""
     if not isinstance(sig.name, str) or not sig.name:
         raise ValueError(f"Invalid simulation target: unnamed {sig}")
-    parent = getattr(sig, "_parent_module", None)
-    if tb is not None and parent is not None and parent is not tb:
-        msg = f"Invalid simulation target: {sig} is a Signal of {parent}, not of testbench {tb.name}"
+    if tb is not None and tb.namespace.get(sig.name, None) is not sig:
+        parent = getattr(sig, "_parent_module", None)
+        msg = f"Invalid simulation target: {sig} is a Signal of {parent or 'no Module'}, not of testbench {tb.name}"
         raise ValueError(msg)
     return sig.name
+
+
+def target_name(name: str) -> str:
+    """A simulation target given by name: any name but the empty one."""
+    if not name:
+        raise ValueError("Invalid simulation target: empty name")
+    return name
 
 
 def export_save(save: data.Save, tb: Optional["Module"] = None) -> vsp.Save:
@@ -366,11 +376,13 @@ def export_save(save: data.Save, tb: Optional["Module"] = None) -> vsp.Save:
     if isinstance(save.targ, Signal):
         signal = signal_name(save.targ, tb)
     elif isinstance(save.targ, str):
-        signal = save.targ
+        signal = target_name(save.targ)
+    elif isinstance(save.targ, list) and not save.targ:
+        raise ValueError("Invalid Save target: an empty list")
     elif isinstance(save.targ, list) and all(isinstance(s, Signal) for s in save.targ):
         signal = ",".join([signal_name(s, tb) for s in save.targ])
     elif isinstance(save.targ, list) and all(isinstance(s, str) for s in save.targ):
-        signal = ",".join([s for s in save.targ])
+        signal = ",".join([target_name(s) for s in save.targ])
     else:
         raise TypeError(f"Invalid Save target {save.targ}")
     return vsp.Save(signal=signal)
